@@ -13,14 +13,17 @@ structure SQuirks where
   /-- (repaired by 46a3464) css/string.rs Display: a private-use escape `\e000` was not
   terminated when a hex digit, space or tab follows. -/
   escapeUnterminated : Bool := false
-  /-- parser/css/strings.rs `css_string_dq`/`css_string_sq`: `is_not("\"")` is the first
+  /-- (repaired by 60db3d6) parser/css/strings.rs `css_string_dq`/`css_string_sq`: `is_not("\"")` is the first
   alternative and consumes backslashes, so `\"` and hex escapes are never decoded: an escaped
   quote ends the string (parse error), an escape is kept as raw text. -/
   readerIgnoresEscapes : Bool := false
   deriving DecidableEq, Repr
 
 def SQuirks.spec : SQuirks := {}
-def SQuirks.asis : SQuirks := { readerIgnoresEscapes := true }
+/-- the code as it is (since 60db3d6) -/
+def SQuirks.asis : SQuirks := {}
+/-- the code between 46a3464 and 60db3d6 -/
+def SQuirks.r1 : SQuirks := { readerIgnoresEscapes := true }
 /-- the code before 46a3464 -/
 def SQuirks.old : SQuirks := { escapeUnterminated := true, readerIgnoresEscapes := true }
 
